@@ -38,7 +38,7 @@ def check(ctx):
     fact(ctx, R, f, "_encode_variable strides", F.augs("offset"),
          ["+= len(f.levels)*" + PREV % "trial", "+= " + PREV % "trial" + "*self.variables_per_trial()"],
          "stride per preceding applicable trial: len(f.levels) for complex-window factors, variables_per_trial() on the grid")
-    fact(ctx, R, f, "_encode_variable 1-based", F.returns(), ["1 + offset"], "variables are 1-based (index + 1)")
+    fact(ctx, R, f, "_encode_variable 1-based", F.returns(), ["1 + ite(f.has_complex_window, self.first_variable_for_level(f, l) + len(f.levels)*self._get_previous_trials_variable_count(f, trial), self.first_variable_for_level(f, l) + self._get_previous_trials_variable_count(f, trial)*self.variables_per_trial())"], "variables are 1-based (index + 1)")
     # the complex stride must be in the true branch of has_complex_window
     br = [s for s in F.stmts if isinstance(s, ast.If)]
     ok = len(br) == 1 and "len(f.levels)" in ast.unparse(br[0].body[0]) and "variables_per_trial" in ast.unparse(br[0].orelse[0])
@@ -57,7 +57,7 @@ def check(ctx):
     ctx.check(ok, R, f, "factor_variables_for_trial branch polarity", "complex stride under has_complex_window",
               "the strides of factor_variables_for_trial are attached to the wrong branches")
     r = F.returns()
-    ctx.check(len(r) == 1 and r[0].startswith("[1 + _b0 + offset for _b0 in [self.first_variable_for_level(f, _b0) for _b0 in "),
+    ctx.check(len(r) == 1 and r[0].startswith("[1 + _b0 + ") and " for _b0 in [self.first_variable_for_level(f, _b0) for _b0 in " in r[0],
               R, f, "factor_variables_for_trial 1-based", "each level's first variable + offset + 1",
               "factor_variables_for_trial returns `%s`" % (r[0][:140] if r else r))
 
